@@ -18,8 +18,27 @@ META = {
                  "row table and the scalar arithmetic, instantiated on the tables regenerated from mjcf_read_table.inc / "
                  "mjcf_map.h (checked fresh against mjcf.schema through the tree's own generators) + exact differential "
                  "correspondence of the table writer (which attributes are written, with which values) with the real "
-                 "mj_saveXMLString + save -> parse -> compile -> compare-every-array oracle on the real code",
-    "text": "PARTIAL (table level only). Model/XmlDefaults.lean models mjXWriter::WriteAttrTable with WriteAttr/WriteAttrKey "
+                 "mj_saveXMLString + Lean 4 proof of the inertia-source round trip (which bodies get <inertial>, compiler stage "
+                 "discardvisual / inertiafromgeom / inertiagrouprange / saveinertial) with the model compared bitwise (body_mass "
+                 "before and after the reload) with the real compiler, writer and reader + save -> parse -> compile -> "
+                 "compare-every-array oracle on the real code",
+    "text": "PARTIAL (attribute-table level + the inertia-source decision). Model/XmlInertial.lean models the compiler stage that "
+            "decides where a body's inertia comes from (mjCBody::Compile / InertiaFromGeom with inertiafromgeom, inertiagrouprange "
+            "and the mjEPS selection; mjCModel::IndexAssets(discardvisual): promotion of bodies that lose visual geoms and the "
+            "demotion inertiafromgeom true -> auto), the hand-written writer branches that depend on it (mjXWriter::Body writes "
+            "<inertial> iff saveinertial or explicit and the setting is not `true`; OneGeom saves the compiled mass_ of a geom with a "
+            "mass attribute; mjXWriter::Compiler saves none of the four settings) and the reader side (defaults of the reloaded "
+            "<compiler>, <inertial> makes the body explicit). inertial_roundtrip proves, for every mass algebra (IEEE doubles "
+            "included), every compiler setting and every list of bodies, that body_mass compiled from the saved text equals the "
+            "original for every body satisfying `safe`; unsafe_* show that each of the four excluded classes really loses the mass "
+            "(they are recorded findings of the tree, attributed by unsafeClass, proved to be the negation of `safe`); "
+            "promotion_needs_demotion shows what the demotion in IndexAssets is for. Tie: on generated documents with explicit "
+            "dyadic geom masses the model and the real mj_compile / mj_saveXMLString / reload agree on which bodies get <inertial>, "
+            "which geoms are kept, that the four compiler attributes are absent, and BITWISE on body_mass before and after the "
+            "reload. Oracle additionally runs compiler-stage documents (all of the above plus settotalmass, fusestatic, "
+            "balanceinertia, boundmass/boundinertia, autolimits, alignfree, angle/eulerseq, default classes, referenced visual "
+            "geoms) and mjSpec programs with discardvisual / inertiafromgeom through the full array comparison. "
+            "Model/XmlDefaults.lean models mjXWriter::WriteAttrTable with WriteAttr/WriteAttrKey "
             "(NaN skip, SameVector elision against the default, trailing-default trim of non-exact rows, keyword lookup) and "
             "mjXReader::ReadAttrTableCore with ReadAttr/MapValue (absent -> keep the default, arity checks, prefix overwrite, "
             "keyword lookup), including the handwrite / nodefault skips. Proved for every row table with distinct attribute "
@@ -37,8 +56,12 @@ META = {
             "mjcf_default_table.inc are compared with the constructors.",
     "note": "TRUSTED BASE ADDITION: src/xml is compiled against harness/stubs/tinyxml2 (a minimal re-implementation of the "
             "tinyxml2 DOM API written for this framework, NOT tinyxml2); the XML text layer seen by the reader/writer is the "
-            "stand-in's. No theorem covers the hand-written OneX() parts of the writer, writing=custom rows, the compiler, "
-            "assets, or the text layer: those are sampled by the oracle only. Meshes/textures/height fields from files, plugins "
+            "stand-in's. Apart from the inertia-source decision (Model/XmlInertial.lean: body_mass only; ipos/iquat/inertia follow "
+            "the same decision but their arithmetic is not modelled) no theorem covers the hand-written OneX() parts of the "
+            "writer, writing=custom rows, the rest of the compiler (fusestatic, settotalmass, boundmass, orientation resolution), "
+            "assets, or the text layer: those are sampled by the oracle only. A difference of a compiler-stage document is "
+            "attributed to a recorded finding only when the Lean classifier (unsafeClass) says a body of the document is outside "
+            "inertial_roundtrip and, for documents with exact masses, the number of changed masses is the predicted one. Meshes/textures/height fields from files, plugins "
             "and src/xml/mjz are outside the generated models (shipped models that need them are skipped and counted). At "
             "precision 6 the comparison is a tolerance test, not equality.",
 }
@@ -50,6 +73,16 @@ THEOREMS = [
     "MjProof.C32.read_write_eq_self",
     "MjProof.C32.keyOK_of_mapOK'",
     "MjProof.C32.elision_loses_near_default",
+]
+THEOREMS_INERTIAL = [
+    "MjProof.C32.inertial_roundtrip",
+    "MjProof.C32.written_roundtrip",
+    "MjProof.C32.unsafeClass_zero_iff_safe",
+    "MjProof.C32.unsafe_ifg_false",
+    "MjProof.C32.unsafe_grouprange",
+    "MjProof.C32.unsafe_explicit_visual",
+    "MjProof.C32.unsafe_explicit_nogeom",
+    "MjProof.C32.promotion_needs_demotion",
 ]
 THEOREMS_GEN = [
     "MjProof.C32.generated_maps_ok",
@@ -192,12 +225,301 @@ def table_lines(rng, tj, defs, n_per_table):
     return lines, skipped_tables
 
 
+# ------------------------------------------------------------------------------------------ compiler-stage documents
+# Documents that exercise what the COMPILER does to the spec before the writer sees it (discardvisual, inertiafromgeom,
+# inertiagrouprange, saveinertial, fusestatic, settotalmass, balanceinertia, boundmass/boundinertia, autolimits, alignfree,
+# angle/eulerseq) together with the hand-written writer branches that depend on it (<compiler>, <inertial>).  Every
+# document carries its description in the vocabulary of Model/XmlInertial.lean (compiler settings, per body: explicit
+# inertial, geoms with visual / group / mass); `exact` documents give every geom an explicit dyadic mass, so that the
+# model predicts body_mass before and after the reload BITWISE (tie); the others are oracle-only.
+DYADIC = (0.25, 0.375, 0.5, 0.75, 1.25, 1.5, 2.0, 3.5)
+IFG_WORD = {"false": "no", "true": "yes", "auto": "auto"}
+
+
+def _dy(rng, lo=-3, hi=3):
+    return rng.randint(lo * 4, hi * 4) / 4.0
+
+
+NEUTRAL = (("balanceinertia", 0.2, "true"), ("boundmass", 0.15, lambda r: fmt(r.choice((0.5, 4.0)))),
+           ("boundinertia", 0.15, lambda r: fmt(r.choice((0.01, 0.5)))), ("autolimits", 0.2, "false"),
+           ("alignfree", 0.2, "true"), ("angle", 0.5, lambda r: r.choice(("degree", "radian"))),
+           ("eulerseq", 0.2, lambda r: r.choice(("zyx", "XYZ", "xyZ", "ZXZ"))), ("usethread", 0.1, "false"),
+           ("fitaabb", 0.1, "true"))
+
+
+def compiler_stage_doc(rng, exact, mode=None):
+    """-> dict(xml, op (arguments of the i / c lines of the model driver), features, mode, ...).
+    modes: mass      inertiafromgeom / discardvisual / inertiagrouprange / saveinertial (the modelled settings)
+           totalmass settotalmass           fuse  fusestatic (+ discardvisual)          plain  none of these
+    non-exact documents add the settings of NEUTRAL to every mode"""
+    R = rng.random
+    comp = {}
+    if mode is None:
+        mode = "mass" if exact else rng.choice(("mass",) * 13 + ("totalmass",) * 2 + ("fuse",) * 1 + ("plain",) * 4)
+    ifg, discard, saveinertial, glo, ghi = None, False, False, 0, 5
+    if mode == "mass":
+        ifg = rng.choice(("auto", "true", "true", "true", "false")) if R() < 0.75 else None
+        discard = R() < 0.55
+        saveinertial = R() < 0.08
+        if R() < 0.15:
+            glo = rng.randint(0, 3)
+            ghi = rng.randint(glo, 5)
+            comp["inertiagrouprange"] = "%d %d" % (glo, ghi)
+    elif mode == "totalmass":
+        comp["settotalmass"] = fmt(rng.choice((2.0, 7.5, 12.0)))
+    elif mode == "fuse":
+        comp["fusestatic"] = "true"
+        discard = R() < 0.3
+    if ifg is not None:
+        comp["inertiafromgeom"] = ifg
+    if discard:
+        comp["discardvisual"] = "true"
+    elif R() < 0.1:
+        comp["discardvisual"] = "false"
+    if saveinertial:
+        comp["saveinertial"] = "true"
+    extra = {}
+    if not exact:
+        for name, p, val in NEUTRAL:
+            if R() < p:
+                extra[name] = val(rng) if callable(val) else val
+        comp.update(extra)
+    angle_deg = comp.get("angle", "degree") == "degree"
+    nb = rng.randint(1, 4)
+    bodies, lines, refs = [], [], []
+    gid = [0]
+    ifgv = ifg or "auto"
+
+    def geom(b, visual, static):
+        gid[0] += 1
+        g = {"id": gid[0], "visual": visual, "group": 0, "massattr": False}
+        a = ['name="g%d"' % g["id"]]
+        if exact:
+            a.append('size="0.125"')
+        else:
+            t = rng.choice(("sphere", "box", "capsule", "cylinder", "ellipsoid"))
+            n = {"sphere": 1, "capsule": 2, "cylinder": 2, "box": 3, "ellipsoid": 3}[t]
+            a += ['type="%s"' % t, 'size="%s"' % " ".join(fmt(rng.choice((0.0625, 0.125, 0.25))) for _ in range(n))]
+        if R() < 0.7:
+            a.append('pos="%s"' % " ".join(fmt(_dy(rng, -1, 1)) for _ in range(3)))
+        if not exact and R() < 0.4:
+            e = [rng.choice((0, 30, 45, 90, -60)) for _ in range(3)]
+            a.append('euler="%s"' % " ".join(fmt(x if angle_deg else x / 64.0) for x in e))
+        if visual or R() < 0.12:
+            # contype = conaffinity = 0; a referenced one (contact pair with the floor) is NOT visual for the compiler
+            a.append('contype="0" conaffinity="0"')
+            if not visual:
+                refs.append(g["id"])
+        elif R() < 0.3:
+            a.append('contype="%d" conaffinity="%d"' % (rng.choice((1, 2)), rng.choice((1, 3))))
+        if R() < 0.25:
+            g["group"] = rng.randint(0, 5)
+            a.append('group="%d"' % g["group"])
+        if exact or R() < 0.4:
+            g["m"] = 0.0 if R() < 0.1 else rng.choice(DYADIC)
+            g["massattr"] = True
+            a.append('mass="%s"' % fmt(g["m"]))
+        else:
+            d = rng.choice((None, None, 500.0, 2000.0, 0.0))
+            g["m"] = 1.0 if d is None or d > 0 else 0.0      # only "heavier than mjEPS" matters for the classification
+            if d is not None:
+                a.append('density="%s"' % fmt(d))
+        if not exact and R() < 0.15:
+            a.append('rgba="%s"' % " ".join(fmt(rng.choice((0.25, 0.5, 1.0))) for _ in range(4)))
+        b["geoms"].append(g)
+        return "<geom %s/>" % " ".join(a)
+
+    def body(i, depth):
+        b = {"explicit": R() < 0.35, "emass": 0.0, "geoms": [], "depth": depth}
+        bodies.append(b)
+        ind = "  " * (depth + 1)
+        out = ['%s<body name="b%d" pos="%s">' % (ind, i, " ".join(fmt(_dy(rng, -1, 1)) for _ in range(3)))]
+        if b["explicit"]:
+            b["emass"] = rng.choice(DYADIC)
+            ia = ['pos="%s"' % " ".join(fmt(_dy(rng, -1, 1) / 4) for _ in range(3)), 'mass="%s"' % fmt(b["emass"])]
+            if exact or R() < 0.6:
+                ia.append('diaginertia="%s"' % " ".join(fmt(x) for x in sorted(rng.choice(((0.5, 0.5, 0.5), (0.25, 0.375, 0.5), (1.0, 1.5, 2.0))), key=lambda _: R())))
+            elif extra.get("balanceinertia") and R() < 0.5:
+                ia.append('diaginertia="0.125 0.25 2"')       # violates A + B >= C: balanced by the compiler
+            else:
+                ia.append('fullinertia="0.5 0.75 1 0.125 0 0.0625"')
+            out.append("%s  <inertial %s/>" % (ind, " ".join(ia)))
+        ng = rng.choice((0, 1, 1, 2, 2, 3))
+        kinds = [R() < 0.45 for _ in range(ng)]
+        glines = [geom(b, v, False) for v in kinds]
+        heavy = [g for g in b["geoms"] if g["m"] > 0 and glo <= g["group"] <= ghi]
+        # a moving body needs mass: only give it a joint when the settings leave it one
+        if ifgv == "true":
+            massive = bool(heavy) or (b["explicit"] and b["emass"] > 0)
+        elif ifgv == "auto":
+            massive = b["explicit"] or bool(heavy)
+        else:
+            massive = b["explicit"]
+        b["static"] = not (massive and R() < 0.7)
+        if not b["static"]:
+            jt = "hinge" if exact else rng.choice(("hinge", "slide", "ball", "free" if depth == 0 else "hinge"))
+            if jt == "free":
+                out.append('%s  <freejoint name="j%d"/>' % (ind, i))
+            else:
+                ja = ['name="j%d"' % i, 'type="%s"' % jt]
+                if not exact and jt in ("hinge", "slide") and R() < 0.4:
+                    rg = (-30.0, 45.0) if (jt == "hinge" and angle_deg) else (-0.5, 0.75)
+                    ja.append('range="%s %s"' % (fmt(rg[0]), fmt(rg[1])))
+                    if extra.get("autolimits") == "false" and R() < 0.7:
+                        ja.append('limited="true"')
+                out.append("%s  <joint %s/>" % (ind, " ".join(ja)))
+        for gl in glines:
+            out.append("%s  %s" % (ind, gl))
+        if not exact and R() < 0.3:
+            out.append('%s  <site name="s%d" pos="%s"/>' % (ind, i, " ".join(fmt(_dy(rng, -1, 1) / 2) for _ in range(3))))
+        if not exact and R() < 0.15:
+            out.append('%s  <camera name="c%d" pos="0 0 0.5"/>' % (ind, i))
+        return b, out, ind
+
+    # body tree in document (depth-first) order, which is also the naming order b1..bn and the order of the op line
+    counter = [0]
+    fanout = [rng.choice((0, 1, 1, 2)) for _ in range(nb)]
+
+    def emit(depth):
+        counter[0] += 1
+        b, out, ind = body(counter[0], depth)
+        for _ in range(fanout.pop(0) if fanout else 0):
+            if counter[0] < nb:
+                out += emit(depth + 1)
+        out.append("%s</body>" % ind)
+        return out
+    wb = []
+    while counter[0] < nb:
+        wb += emit(0)
+    head = ["<mujoco>", "  <compiler %s/>" % " ".join('%s="%s"' % kv for kv in comp.items())]
+    if not exact and R() < 0.3:
+        head.append('  <default><geom density="%s"/><default class="vis"><geom contype="0" conaffinity="0"/></default></default>'
+                    % fmt(rng.choice((750.0, 1000.0, 1250.0))))
+    doc = head + ["  <worldbody>", '    <geom name="floor" type="plane" size="2 2 0.125"/>'] + wb + ["  </worldbody>"]
+    if refs:
+        doc.append("  <contact>%s</contact>" % "".join('<pair geom1="floor" geom2="g%d"/>' % g for g in refs))
+    moving = [i + 1 for i, b in enumerate(bodies) if not b["static"]]
+    if not exact and moving and R() < 0.3:
+        doc.append('  <keyframe><key name="k" time="0.5"/></keyframe>')
+    doc.append("</mujoco>")
+    op = "%s %d %d %d %d" % (IFG_WORD[ifgv], discard, saveinertial, glo, ghi)
+    for b in bodies:
+        op += " B %d %s" % (b["explicit"], bits(b["emass"]))
+        for g in b["geoms"]:
+            op += " G %d %d %d %s %d" % (g["id"], g["visual"], g["group"], bits(g["m"]), g["massattr"])
+    feats = sorted(k for k in comp if not (k == "angle")) or ["none"]
+    return {"xml": "\n".join(doc) + "\n", "op": op, "features": feats, "exact": exact, "compiler": comp, "mode": mode,
+            "nbody": len(bodies), "fusable_explicit": any(b["static"] and b["explicit"] and b["depth"] > 0 for b in bodies),
+            "fusable": any(b["static"] for b in bodies)}
+
+
 # ------------------------------------------------------------------------------------------ round-trip oracle
 def classify(fields):
     """fields: list of (name, count, first, a, b) of a diff line"""
     names = sorted(f[0] for f in fields)
     if names == ["eq_objtype"]:
         return "c32:eq_objtype-of-joint-or-tendon-equality-not-saved"
+    return None
+
+
+KEY_SIZE = ("c32:unused-size-components-not-saved", "the writer prints only the size components the geom/site type uses "
+            "(mjGEOMINFO[type]); the remaining components given in the original (e.g. <site size=\"0.5 2\"/> of a sphere) are in "
+            "site_size / geom_size of the original model and are the default in the model compiled from the saved text")
+KEY_FRAME_IPOS = ("c32:massless-body-in-frame-ipos-not-composed", "a body without mass inside a <frame>: mjCBody::Compile copies "
+                  "the body's pos/quat into ipos/iquat BEFORE composing the frame, so body_ipos holds the pos written in the "
+                  "document; the saved text has the composed pos and the reloaded body_ipos differs (stat.center/extent follow)")
+
+
+def classify_small(m, fl):
+    names = {f[0] for f in fl}
+    if names and names <= {"site_size", "geom_size"}:
+        return KEY_SIZE
+    txt = m.get("xml") or ""
+    if names and "body_ipos" in names | {"body_iquat"} and "<frame" in txt and \
+            names <= {"body_ipos", "body_iquat", "body_sameframe", "body_simple", "stat.extent", "stat.center", "stat.meansize"}:
+        return KEY_FRAME_IPOS
+    return None
+
+
+MASS_KEYS = {
+    1: ("c32:inertiafromgeom-false-not-saved", "<compiler inertiafromgeom=\"false\"> is not written by mjXWriter::Compiler: a body "
+        "without <inertial> has mass 0 in the original and the mass of its geoms in the model compiled from the saved text"),
+    2: ("c32:inertiagrouprange-not-saved", "<compiler inertiagrouprange> is not written: geoms outside the range (specified by "
+        "density) do not count in the original body inertia and count after the reload"),
+    3: ("c32:inertiafromgeom-true-discardvisual-explicit-body-loses-visual-geoms", "inertiafromgeom=\"true\" + discardvisual: a body "
+        "WITH <inertial> whose visual geoms are discarded is not promoted by IndexAssets (it skips explicit bodies) and the "
+        "setting stays `true`, so its <inertial> is not written; the reloaded body lacks the discarded geoms' mass"),
+    4: ("c32:inertiafromgeom-true-explicit-body-without-massive-geoms-loses-inertial", "inertiafromgeom=\"true\": a body with "
+        "<inertial> and no geom heavier than mjEPS keeps its explicit inertia (InertiaFromGeom selects nothing), the writer "
+        "drops <inertial> because the setting is `true`; the reloaded body has mass 0 (a moving one no longer compiles)"),
+}
+KEY_TOTALMASS = ("c32:settotalmass-not-saved", "<compiler settotalmass> rescales every body mass/inertia after compilation "
+                 "(mj_setTotalmass) but the writer saves neither the setting nor the scaled inertias of bodies whose inertia "
+                 "comes from geoms: the reloaded model has the unscaled masses")
+KEY_FUSE = ("c32:fusestatic-model-not-reproduced-by-saved-text", "with fusestatic a static child body is merged into its parent "
+            "after compilation; the compiled model then differs from the model compiled from the saved (already fused) text: "
+            "nbvh/nbvhstatic/bvh_nodeid keep the count of the fused body's BVH, the parent inertia accumulated by "
+            "AccumulateInertia differs from InertiaFromGeom over the merged geoms (1e-8 relative), and the explicit <inertial> "
+            "of a fused child is lost (the parent is not marked explicit)")
+
+
+def origin_compiler(m):
+    """compiler settings of an origin, from its MJCF text (schema-derived / shipped / directed documents) or its generator record"""
+    if "compiler" in m:
+        return m["compiler"]
+    txt = m.get("xml")
+    if txt is None and m.get("file"):
+        try:
+            txt = open(os.path.join(common.REPO, m["file"]), errors="replace").read()
+        except OSError:
+            txt = ""
+    out = {}
+    for t in re.findall(r"<compiler\b([^>]*)>", txt or ""):
+        out.update(dict(re.findall(r'([A-Za-z_]+)\s*=\s*"([^"]*)"', t)))
+    return out
+
+
+def classify_compiler_stage(m, fl, stage_msg):
+    """attribute a difference to one of the recorded compiler-stage findings, or None.  m: meta of the origin;
+    fl: differing fields (empty for a reload failure); stage_msg: message of a failed reload"""
+    names = {f[0] for f in fl}
+    # the inertia SOURCE of a body changed: mass, inertia and the inertial frame all follow it (boundmass / boundinertia can
+    # hide the first two)
+    mass_diff = bool(names & {"body_mass", "body_inertia", "body_ipos", "body_iquat"}) or \
+        "moving bodies must be larger" in (stage_msg or "")
+    comp = origin_compiler(m)
+    if comp.get("fusestatic") == "true" and m.get("fusable", True):
+        return KEY_FUSE
+    if not mass_diff:
+        return None
+    try:
+        if float(comp.get("settotalmass", "-1")) > 0:
+            return KEY_TOTALMASS
+    except ValueError:
+        pass
+    classes = m.get("classes")
+    if classes is not None:
+        # generated compiler-stage document: the Lean model (unsafeClass, proved to be the negation of `safe`) says which
+        # bodies are outside inertial_roundtrip; the number of bodies whose mass differs must be explained by them
+        bad = [k for k in classes if k]
+        if not bad:
+            return None
+        nm = sum(int(f[1]) for f in fl if f[0] == "body_mass")
+        pred = m.get("predicted_mass_changes")
+        if pred is not None:
+            # exact document: the model predicts bitwise which masses change (a failed reload hides the count)
+            if pred == 0 or (fl and nm != pred):
+                return None
+        elif nm > len(bad):
+            return None
+        return MASS_KEYS[min(bad)]
+    # other origins (schema-derived, shipped): by setting only
+    if comp.get("inertiafromgeom") == "false":
+        return MASS_KEYS[1]
+    if "inertiagrouprange" in comp and comp["inertiagrouprange"].split() != ["0", "5"]:
+        return MASS_KEYS[2]
+    if comp.get("inertiafromgeom") == "true" and re.search(r"<inertial\b", m.get("xml", "") or ""):
+        return MASS_KEYS[3] if comp.get("discardvisual") == "true" else MASS_KEYS[4]
     return None
 
 
@@ -208,6 +530,8 @@ def parse_result(o):
         if "=" in x:
             k, v = x.split("=", 1)
             r[k] = v
+    mm = re.search(r" msg=(.*?)(?: xml=[0-9a-f]*)?$", o)
+    r["fullmsg"] = mm.group(1) if mm else ""
     if r["status"] == "diff":
         r["fieldlist"] = [tuple(f.split(":")) for f in r.get("fields", "").split(",") if f]
     return r
@@ -216,7 +540,9 @@ def parse_result(o):
 def _run(ctx):
     rng = ctx.rng
     thorough = ctx.tier == "thorough"
-    ctx.rule = ("table writer (model) == real writer on the attributes written; save -> parse -> compile reproduces every size, "
+    ctx.rule = ("table writer (model) == real writer on the attributes written; inertia-source model == real compiler + writer + "
+                "reader (<inertial> written, geoms kept, compiler attributes absent, body_mass before/after the reload bitwise); "
+                "save -> parse -> compile reproduces every size, "
                 "option/visual/statistic field and every mjModel array: numerically equal at xml precision 17 (deviations below "
                 "%g are attributed to number formatting and reported under one key), within tolerance at precision 6" % TINY)
     ctx.assumptions.append("harness/stubs/tinyxml2 (a stand-in written for this framework, NOT tinyxml2) is the XML text layer under "
@@ -236,11 +562,11 @@ def _run(ctx):
     ctx.extra["tables"] = {"tables": len(tj.get("tables", [])), "rows": sum(len(t["rows"]) for t in tj.get("tables", [])),
                            "writer_tables": tj.get("writer_tables"), "maps": len(tj.get("maps", {}))}
 
-    ctx.lean_props(THEOREMS)
+    ctx.lean_props(THEOREMS + THEOREMS_INERTIAL, extra_modules=["MjProof.Props.C32Inertial"])
     ctx.lean_props(THEOREMS_GEN, module="MjProof.Props.C32Gen")
     with open(os.path.join(common.LEAN, "Audit", "C32.lean"), "w") as f:
-        f.write("import MjProof.Props.C32\nimport MjProof.Props.C32Gen\n" +
-                "".join("#print axioms %s\n" % t for t in THEOREMS + THEOREMS_GEN))
+        f.write("import MjProof.Props.C32\nimport MjProof.Props.C32Gen\nimport MjProof.Props.C32Inertial\n" +
+                "".join("#print axioms %s\n" % t for t in THEOREMS + THEOREMS_GEN + THEOREMS_INERTIAL))
 
     drv = ctx.driver("drv_c32")
     try:
@@ -297,6 +623,7 @@ def _run(ctx):
 
     # ---- round-trip oracle
     from gen.models import ModelGen
+    from gen.enums import E
     ops17, ops6, meta = [], [], {}
     nmodel = 400 if thorough else 30
     for i in range(nmodel):
@@ -322,6 +649,78 @@ def _run(ctx):
                 ops6.append("xml %s %s" % (oid, txt.encode().hex()))
     except Exception as e:
         ctx.oblige("schema-derived documents", "generator-coverage", False, repr(e))
+    # ---- everything below draws from ctx.rng AFTER the generators above, so that their sample for a given seed is unchanged
+    # compiler-stage documents: tie of the inertia-source model + origins of the oracle
+    n_exact, n_rich = (700, 900) if thorough else (60, 70)
+    cdocs = [compiler_stage_doc(rng, True) for _ in range(n_exact)] + [compiler_stage_doc(rng, False) for _ in range(n_rich)]
+    _, cls_out, _ = ctx.run_lines([drv], ["c " + d["op"] for d in cdocs])
+    _, pred_out, _ = ctx.run_lines([drv], ["i " + d["op"] for d in cdocs])
+    for d, co, po in zip(cdocs, cls_out, pred_out):
+        w = co.split(" ")
+        if w[0] != "ok" or len(w) != d["nbody"] + 1 or not po.startswith("ok C - "):
+            raise common.Infra("model driver rejected a generated inertia op: %s / %s" % (co, po[:80]))
+        d["classes"] = [int(x) for x in w[1:]]
+        if d["exact"]:
+            d["predicted_mass_changes"] = sum(1 for b in po.split(" B ")[1:] if b.split(":")[2] != b.split(":")[3])
+    ilines = ["i %s # %s" % (d["op"], d["xml"].encode().hex()) for d in cdocs if d["exact"]]
+    iskip = [0]
+
+    def cmp_i(a, b):
+        if b.startswith("err skip"):
+            iskip[0] += 1
+            return True
+        if ":fail" not in b:
+            return a == b
+        # the saved text does not compile (reported by the oracle): everything but the reloaded masses must agree, and the
+        # model must predict a body that lost its mass
+        pa, pb = a.split(" B "), b.split(" B ")
+        return len(pa) == len(pb) and pa[0] == pb[0] and all(x.rsplit(":", 1)[0] == y.rsplit(":", 1)[0] for x, y in zip(pa[1:], pb[1:])) \
+            and any(x.endswith(":x0000000000000000") and ":x0000000000000000:" not in x for x in pa[1:])
+    ctx.differential("inertia-source model (which bodies get <inertial>, which geoms are kept, compiler attributes not saved, "
+                     "body_mass before and after the reload, bitwise) vs mj_compile / mj_saveXMLString / reload",
+                     [drv], wrapper, ilines, keyf=lambda l: l.split(" # ")[0], cmp=cmp_i)
+    ctx.oblige("at least 70%% of the inertia-source documents compile (%d of %d do not)" % (iskip[0], len(ilines)),
+               "generator-coverage", iskip[0] * 10 <= len(ilines) * 3, "")
+    hist = {}
+    for d in cdocs:
+        for f in d["features"]:
+            hist[f] = hist.get(f, 0) + 1
+    cc = {}
+    for d in cdocs:
+        for k in d["classes"]:
+            cc[k] = cc.get(k, 0) + 1
+    ctx.extra["compiler_stage_documents"] = {
+        "exact (tie + oracle)": n_exact, "rich (oracle only)": n_rich, "compiler_attribute_histogram": hist,
+        "modes": {m_: sum(1 for d in cdocs if d["mode"] == m_) for m_ in ("mass", "totalmass", "fuse", "plain")},
+        "bodies_by_unsafeClass (0 = covered by inertial_roundtrip)": {str(k): v for k, v in sorted(cc.items())},
+        "documents_with_discardvisual_and_inertiafromgeom_true": sum(1 for d in cdocs if d["compiler"].get("discardvisual") == "true"
+                                                                      and d["compiler"].get("inertiafromgeom") == "true")}
+    ctx.sample({"inertia_op": ilines[0].split(" # ")[0][:300]})
+
+    for i, d in enumerate(cdocs):
+        oid = "c%d" % i
+        meta[oid] = dict(d, origin="compiler-stage MJCF (%s, %s)" % (d["mode"], "exact masses" if d["exact"] else "rich"))
+        ops17.append("xml %s %s" % (oid, d["xml"].encode().hex()))
+        if i % 3 == 0:
+            ops6.append("xml %s %s" % (oid, d["xml"].encode().hex()))
+    # mjSpec programs with compiler settings, restricted to those the tree round-trips (no explicit inertials here, so every
+    # body is covered by inertial_roundtrip): visual geoms discarded, inertia from geoms
+    nspec = 120 if thorough else 12
+    for i in range(nspec):
+        # (no numeric / equality elements: they trigger two recorded findings that would combine with everything else)
+        mdl = ModelGen(rng, {"contacts": 0.55, "mocap": 0.0, "numeric": 0.0, "equalities": 0.0}).make()
+        oid = "gc%d" % i
+        pre = ["compiler discardvisual %d" % (rng.random() < 0.7),
+               "compiler inertiafromgeom %d" % E(rng.choice(("mjINERTIAFROMGEOM_TRUE", "mjINERTIAFROMGEOM_TRUE", "mjINERTIAFROMGEOM_AUTO")))]
+        if rng.random() < 0.3:
+            pre.append("compiler boundmass %r" % rng.choice((0.5, 2.0)))
+        if rng.random() < 0.3:
+            pre.append("compiler alignfree 1")
+        meta[oid] = {"origin": "gen/models.py via mjSpec + compiler settings", "description": pre + mdl.lines}
+        ops17 += ["model " + oid] + pre + mdl.lines + ["end"]
+        if i % 2 == 0:
+            ops6 += ["model " + oid] + pre + mdl.lines + ["end"]
+    ctx.extra["compiler_stage_documents"]["mjSpec programs with discardvisual / inertiafromgeom"] = nspec
     # shipped models
     files = sorted(glob.glob(os.path.join(common.REPO, "model", "**", "*.xml"), recursive=True))
     if not thorough:
@@ -341,7 +740,6 @@ def _run(ctx):
         meta[oid] = {"origin": "directed (value next to a default / an integer)", "xml": txt}
         ops17.append("xml %s %s" % (oid, txt.encode().hex()))
     # directed mjSpec programs: a joint equality with objtype set; a numeric whose size exceeds its data
-    from gen.enums import E
     two = ["body 1 0", "joint 2 1", "name 2 ja", "geom 3 1", "set 3 size 0.1", "body 4 0", "joint 5 4", "name 5 jb", "geom 6 4", "set 6 size 0.1"]
     dspec = {
         "s0": two + ["equality 7", "set 7 type %d" % E("mjEQ_JOINT"), "set 7 objtype %d" % E("mjOBJ_JOINT"), "set 7 name1 ja", "set 7 name2 jb"],
@@ -372,12 +770,30 @@ def _run(ctx):
                 stats["ok"] += prec == 17
                 if prec == 6:
                     maxdev6 = max(maxdev6, float(r.get("maxdev", 0)))
+                    if int(r.get("bvh_equiv", 0) or 0) > 0:
+                        stats["bvh_node_order_differs_at_precision_6"] = stats.get("bvh_node_order_differs_at_precision_6", 0) + 1
+                    if int(r.get("iquat_equiv", 0) or 0) > 0:
+                        # tolerance mode only: another representative of the same principal-axes frame (full inertia
+                        # tensors agree), see filter_equivalent_iquat in the harness
+                        stats["principal_frame_representation_differs_at_precision_6"] = \
+                            stats.get("principal_frame_representation_differs_at_precision_6", 0) + 1
                 elif len(ctx.samples) < 6:
                     ctx.sample({"origin": m.get("origin"), "file": m.get("file"), "result": "identical: %s arrays, %s elements, saved text %s bytes"
                                 % (r.get("arrays"), r.get("elems"), r.get("bytes"))})
                 continue
             xml = bytes.fromhex(r.get("xml", "")).decode("utf-8", "replace") if r.get("xml") else ""
             replay = dict(m, precision=prec, saved_xml=xml[:20000], harness="harness/cc/c32_roundtrip.cc")
+            known_cs = classify_compiler_stage(m, r.get("fieldlist", []), r["fullmsg"] if r["status"] == "fail" else "") or \
+                classify_small(m, r.get("fieldlist", []))
+            replay.pop("classes", None)
+            if known_cs:
+                stats["known_compiler_stage"] = stats.get("known_compiler_stage", 0) + 1
+                replay["differing_fields"] = [{"field": f[0], "count": f[1], "first_index": f[2], "original": f[3], "reloaded": f[4]}
+                                              for f in r.get("fieldlist", [])[:12]]
+                if r["status"] == "fail":
+                    replay["reload_error"] = "%s: %s" % (r.get("stage"), r["fullmsg"])
+                ctx.oracle_failure(known_cs[0], known_cs[1], replay)
+                continue
             if r["status"] == "fail":
                 stats["fail"] += 1
                 ctx.oracle_failure("c32:saved-text-does-not-load:%s:%s" % (r.get("stage"), re.sub(r"'[^']*'|\d+", "_", o_msg(r))[:60]),
@@ -425,7 +841,7 @@ def _run(ctx):
     def directed(c):
         # the table-level tie broke but the oracle saw nothing: push the disagreeing documents themselves through the
         # round trip and report the first one whose reloaded model differs (beyond number formatting) or does not load
-        docs = [d["line"].split(" ")[-1] for d in c.disagreements if d.get("line", "").startswith("w ")]
+        docs = [d["line"].split(" ")[-1] for d in c.disagreements if d.get("line", "").startswith(("w ", "i "))]
         if not docs:
             return None
         _, out, _ = c.run_lines([impl], ["prec 17", "tol 0"] + ["xml t%d %s" % (i, h) for i, h in enumerate(docs)])
@@ -433,7 +849,7 @@ def _run(ctx):
             r = parse_result(o)
             if r["status"] == "fail" or (r["status"] == "diff" and float(r.get("maxdev", 0)) > TINY):
                 return {"key": "c32:reloaded-model-differs:table-tie-document", "what": "save -> parse -> compile changes the model of a "
-                        "document on which the table writer disagrees with its model: " + o.split(" xml=")[0][:300],
+                        "document on which the real writer / compiler disagrees with its Lean model: " + o.split(" xml=")[0][:300],
                         "replay": {"xml": bytes.fromhex(h).decode("utf-8", "replace")}}
         return None
     ctx.directed_search = directed
